@@ -39,7 +39,16 @@ type Val struct {
 func Null() Val            { return Val{K: KNull} }
 func Bool(b bool) Val      { return Val{K: KBool, B: b} }
 func Num(f float64) Val    { return Val{K: KNum, N: f} }
-func Str(s string) Val     { return Val{K: KStr, S: s} }
+// MaxStr bounds the length of any string value (and of the output): programs
+// that double a string in a loop are outside what any check needs to run.
+const MaxStr = 1 << 16
+
+func Str(s string) Val {
+	if len(s) > MaxStr {
+		leave("string too long")
+	}
+	return Val{K: KStr, S: s}
+}
 func Arr(xs ...Val) Val    { return Val{K: KArr, A: xs} }
 func (v Val) IsNull() bool { return v.K == KNull }
 
